@@ -86,6 +86,37 @@ fn oracle_a(ctx: &mut Ctx, rng: &mut Rng) {
                     ctx.count("inserted");
                     let mut want = v.msg.clone();
                     want.sec[sec].push(tc.rec.clone());
+                    // a second record into another section of the same object (bookkeeping of the first must hold)
+                    let (b, want) = if rng.chance(1, 3) && v.msg.is_response() {
+                        let tc2 = valid_text(rng, None);
+                        let sec2 = (sec + 1 + rng.below(2)) % 3;
+                        let section2 = [Section::Answer, Section::NameServers, Section::Additional][sec2];
+                        let bb = b.clone();
+                        let t1 = tc.text.clone();
+                        let t2 = tc2.text.clone();
+                        let vb = v.bytes.clone();
+                        let r2 = guarded(runaway_budget(bb.len() + 8192) * 8, move || {
+                            let mut pp = DNSSector::new(vb).unwrap().parse().ok()?;
+                            pp.insert_rr_from_string(section, &t1).ok()?;
+                            pp.insert_rr_from_string(section2, &t2).ok()?;
+                            pp.packet.clone()
+                        });
+                        match r2 {
+                            Ok(Some(b2)) => {
+                                ctx.count("double_insertions");
+                                let mut w2 = want.clone();
+                                w2.sec[sec2].push(tc2.rec.clone());
+                                (b2, w2)
+                            }
+                            Ok(None) => (b, want),
+                            Err(p) => {
+                                ctx.violation("C13", format!("insert|{}", p.class()), format!("second insertion: {}", p.msg), &v.bytes);
+                                (b, want)
+                            }
+                        }
+                    } else {
+                        (b, want)
+                    };
                     match refparse(&b, STRICT) {
                         Err(rj) => ctx.violation("C13", format!("insert|output-rejected|{}", rj.clause.as_str()), format!("{} into section {} at {}: {}", tc.kind, sec, rj.at, short(&b)), &v.bytes),
                         Ok(d) => {
@@ -177,6 +208,14 @@ pub fn oracle_c_on(ctx: &mut Ctx, text: &str) {
 }
 
 pub fn run(ctx: &mut Ctx) {
+    // records at the edge of the 16-bit RDLENGTH: whatever is returned must be a well-formed record
+    for case in ctx.phase("huge-rdata", 12) {
+        ctx.begin_case(case);
+        let digest_len = [65529usize, 65530, 65531, 65532, 65533, 65540][(case % 6) as usize];
+        let text = format!("big.example. 1 IN DS 1 2 3 {}", "ab".repeat(digest_len));
+        oracle_c_on(ctx, &text);
+        ctx.count("huge_rdata_texts");
+    }
     let n = ctx.scaled(if ctx.tier == "thorough" { 6_000_000 } else { 240_000 });
     for case in ctx.phase("valid-texts", n) {
         if case % 1024 == 0 && ctx.out_of_time() {
